@@ -17,6 +17,14 @@ pub fn verif_dir() -> String {
     std::env::var("QVMON_VERIF_DIR").unwrap_or_else(|_| VERIF_DIR.to_string())
 }
 
+/// Per-process scratch directory for monitors that drive file entry points (inside the harness
+/// build directory, never under /tmp); the caller removes the files it creates.
+pub fn scratch_dir(tag: &str) -> String {
+    let d = format!("{}/target/tmp/{tag}-{}", env!("CARGO_MANIFEST_DIR"), std::process::id());
+    let _ = std::fs::create_dir_all(&d);
+    d
+}
+
 #[derive(Clone, Copy, PartialEq, Eq, Debug)]
 pub enum Tier {
     Quick,
@@ -272,6 +280,15 @@ impl Ctx {
 
     /// Write evidence, print verdict lines, return the exit code.
     pub fn finish(&self, floor_distinct: u64) -> i32 {
+        // scratch directories of this process (see `scratch_dir`)
+        if let Ok(rd) = std::fs::read_dir(format!("{}/target/tmp", env!("CARGO_MANIFEST_DIR"))) {
+            let suffix = format!("-{}", std::process::id());
+            for e in rd.flatten() {
+                if e.file_name().to_string_lossy().ends_with(&suffix) {
+                    let _ = std::fs::remove_dir_all(e.path());
+                }
+            }
+        }
         let i = self.lock();
         let wall = self.start.elapsed().as_secs_f64();
         let mut code = 0;
